@@ -2,7 +2,7 @@
 import itertools
 import random
 
-from pyvc.unit import unit
+from pyvc.unit import bare, unit
 
 AXML = "androguard/core/axml/__init__.py"
 META = {
@@ -38,17 +38,19 @@ class _Item:
 
 
 class _Ate:
-    def __init__(self, rid, kind, key=None, items=()):
+    def __init__(self, rid, kind, key=None, items=(), datatype=None, data=None):
         self.mResId, self.kind, self.key = rid, kind, key
         self.item = _Item()
         self.item.items = [(0, it) for it in items]
         self.parent = _Pkg()
+        if kind == "compact":           # FLAG_COMPACT: the typed value travels in the entry itself
+            self.datatype, self.data = datatype, data
 
     def is_complex(self):
         return self.kind == "complex"
 
     def is_compact(self):
-        return False
+        return self.kind == "compact"
 
 
 class _Res:
@@ -64,7 +66,7 @@ class _Res:
 
 
 def _ref(m, data_type, data):
-    r = object.__new__(m.ARSCResStringPoolRef)
+    r = bare(m.ARSCResStringPoolRef)
     r.start, r.size, r.res0, r.data_type, r.data, r.parent = 0, 8, 0, data_type, data, _Pkg()
     return r
 
@@ -80,6 +82,10 @@ def _world(m, n, desc):
                 table[rid].append(_Ate(rid, "plain", _ref(m, 1, e[1])))
             elif e[0] == "val":
                 table[rid].append(_Ate(rid, "plain", _ref(m, 0x10, e[1])))
+            elif e[0] == "cref":
+                table[rid].append(_Ate(rid, "compact", datatype=1, data=e[1]))
+            elif e[0] == "cval":
+                table[rid].append(_Ate(rid, "compact", datatype=0x10, data=e[1]))
             else:
                 table[rid].append(_Ate(rid, "complex", None, [_ref(m, 1, x) if x > 0 else _ref(m, 0x10, -x) for x in e[1]]))
     return table
@@ -94,9 +100,9 @@ def _reachable_values(desc, start):
             continue
         seen.add(r)
         for e in desc[r - 1]:
-            if e[0] == "ref":
+            if e[0] in ("ref", "cref"):
                 st.append(e[1])
-            elif e[0] == "val":
+            elif e[0] in ("val", "cval"):
                 vals.add(str(e[1]))
             else:
                 for x in e[1]:
@@ -142,8 +148,8 @@ def _unfold(desc, rid, path=()):
         return []
     out = []
     for e in desc[rid - 1]:
-        subs = [e[1]] if e[0] == "ref" else ([] if e[0] == "val" else [x for x in e[1]])
-        if e[0] == "val":
+        subs = [e[1]] if e[0] in ("ref", "cref") else ([] if e[0] in ("val", "cval") else [x for x in e[1]])
+        if e[0] in ("val", "cval"):
             out.append(str(e[1]))
         for x in subs:
             if x > 0:
@@ -178,6 +184,7 @@ def _entries(n):
     ents += [("ref", j) for j in range(1, n + 1)]
     ents += [("complex", [j, -9]) for j in range(1, n + 1)]
     ents += [("complex", [j, -9, j]) for j in range(1, n + 1)]      # the same resource referenced twice by one entry
+    ents += [("cref", j) for j in range(1, n + 1)] + [("cval", 5)]    # compact entries: a reference / a value in the entry itself
     return ents
 
 
@@ -193,7 +200,7 @@ def _enum(tier, **_):
                      (AXML, "ARSCParser.ResourceResolver.put_ate_value"), (AXML, "ARSCParser.ResourceResolver.put_item_value")],
       level="bounded",
       note="every reference graph over n <= 3 (thorough: 4) resource ids, one entry per id from {value, reference to any id, complex "
-           "entry with a reference item and a value, complex entry referencing the same id twice} (two entries per id for n <= 2): chains and cycles of length 1..n", terminates=True)
+           "entry with a reference item and a value, complex entry referencing the same id twice, compact reference, compact value} (two entries per id for n <= 2): chains and cycles of length 1..n", terminates=True)
 def small_reference_graphs(U):
     m = U.mod(AXML)
     g = U.given or {"n": 2, "combo": [2, 1]}
@@ -223,8 +230,10 @@ def random_reference_graphs(U):
             r = rng.random()
             if r < 0.3:
                 ents.append(("val", rng.randint(1, 50)))
-            elif r < 0.7:
+            elif r < 0.55:
                 ents.append(("ref", rng.randint(1, n)))
+            elif r < 0.7:
+                ents.append(("cref", rng.randint(1, n)) if rng.random() < 0.7 else ("cval", rng.randint(1, 50)))
             else:
                 ents.append(("complex", [rng.randint(1, n) if rng.random() < 0.6 else -rng.randint(1, 50) for _ in range(rng.randint(1, 4))]))
         desc.append(ents)
